@@ -87,8 +87,32 @@ def worker_lp(case, seed):
 def replay_lp(case, cx):
     case = case if isinstance(case, dict) else json.loads(case)
     cfg = LM.default_cfg(**{k: v for k, v in case.items() if k != "shutoff"})
-    vals = cx["vals"][0]
     N, k = cfg["N"], case["shutoff"]
+    # the solver's instance first; if CBC's optimum does not show the violation there, instances of the same configuration in which the feed ceiling leaves room
+    # (the feed round only takes from people what it can hand to animals)
+    import random
+    import copy
+    from harness.C02_optimum import _concrete_vals
+    rng = random.Random(777)
+    cands = [cx["vals"][0]]
+    roomy = copy.deepcopy(cx["vals"][0])
+    for key in ("max_feed", "max_biofuel"):
+        roomy[key] = [x + 50.0 if m < k else x for m, x in enumerate(roomy[key])]
+    cands.append(roomy)
+    for _ in range(2):
+        v = _concrete_vals(cfg, rng)
+        for key in ("feed", "biofuel", "max_feed", "max_biofuel"):
+            v[key] = [x if m < k else 0.0 for m, x in enumerate(v[key])]
+        cands.append(v)
+    last = None
+    for vals in cands:
+        last = _replay_lp_on(case, cfg, vals, cx, N, k)
+        if last["reproduced"]:
+            return last
+    return last
+
+
+def _replay_lp_on(case, cfg, vals, cx, N, k):
     try:
         pf, X = Q.run_real(cfg, vals, cx["growth"])
     except AssertionError as e:
@@ -108,8 +132,17 @@ def replay_lp(case, cx):
             bad.append("month %d biofuel %r vs %r" % (m, bs(m), capb))
         if m >= k and (fs(m) > 1e-6 or bs(m) > 1e-6):
             bad.append("month %d >= shut-off month %d still draws feed %r / biofuel %r" % (m, k, fs(m), bs(m)))
+    if not human and "pins" in vals:
+        pinmap = dict(outdoor_crops=("crops_food_to_humans", 1.0, "OUTDOOR_GROWING"), stored_food=("stored_food_to_humans", 1.0, "STORED_FOOD"), meat=("meat_eaten", 1.0, "MEAT"),
+                      methane_scp=("methane_scp_to_humans", 1.0, "METHANE_SCP"), cellulosic_sugar=("cellulosic_sugar_to_humans", 1.0, "CELLULOSIC_SUGAR"), seaweed=("seaweed_to_humans", Kk, "SEAWEED"))
+        for food, (key, ratio, flag) in pinmap.items():
+            if cfg["flags"].get(flag):
+                for m in range(N):
+                    pin = vals["pins"][food][m]
+                    if g(key, m) * ratio < (1 - 1e-4) * pin - 1e-9:
+                        bad.append("month %d: people get %r of %s in the feed round, pinned minimum %r" % (m, g(key, m) * ratio, food, pin))
     return dict(reproduced=bool(bad), what="CBC's allocation: " + "; ".join(bad[:3]) if bad else "CBC's optimum respects the schedule on this instance", inputs=dict(case=case, supplies=vals),
-                key="lp/" + ("after shut-off" if any("shut-off" in b for b in bad) else "charge mismatch"))
+                key="lp/" + ("after shut-off" if any("shut-off" in b for b in bad) else ("pinned minimum not kept" if any("pinned minimum" in b for b in bad) else "charge mismatch")))
 
 
 def worker_handoff(case, seed):
@@ -143,6 +176,10 @@ def main(tier, seed, only=None):
                         if N == 14 and fl is full and not thorough and k not in (2, 12):
                             continue
                         lp.append(dict(N=N, opt=opt, store=store, flags=fl, shutoff=k))
+    # the feed round's pin window depends on the population (looser under 10 million): both sides of that branch, large and small pinned amounts
+    for pop in (5e5, 9.9e6, 8e9):
+        for store in (True, False):
+            lp.append(dict(N=5, opt="to_animals", store=store, flags=full, shutoff=2, pop=pop))
     hand = [dict(which="final_round_charge", case=dict(kind="round3", country="ARG", N=12, herd=["pig", "meat_cattle"], round2_skipped=True)),
             dict(which="final_round_charge", case=dict(kind="round1", country="ARG", N=12, herd=["chicken", "meat_cattle", "milk_cattle"])),
             dict(which="pinned_minimum", case=dict(N=1, foods=["fish", "meat", "outdoor_crops", "stored_food", "seaweed"], validators=False)),
@@ -156,7 +193,7 @@ def main(tier, seed, only=None):
              symbolic="annual feed and biofuel baselines (kcals, fat, protein)", assumptions=["baselines >= 0"], stubs=["as C08"], outside=[]),
         dict(name="lp_feed_and_biofuel_follow_the_charge", fn="worker_lp", cases=lp, replay=replay_lp,
              functions=["Optimizer.add_feed_biofuel_to_model", "get_feed_sum", "get_biofuel_sum", "add_percentage_intake_constraints", "assign_predetermined_human_consumption_of_foods", "and the rest of the builder (as C01)"],
-             bounds="N in {5,14} (thorough 4..15); both round types; storage on/off; two flag sets; shut-off month k in {0, 2, 12, N}", symbolic="all supplies, charges / ceilings (zero from month k), pins, LP variables",
+             bounds="N in {5,14} (thorough 4..15); both round types; storage on/off; two flag sets; shut-off month k in {0, 2, 12, N}; populations 5e7, and 5e5 / 9.9e6 / 8e9 for the feed round at N=5", symbolic="all supplies, charges / ceilings (zero from month k), pins, LP variables",
              assumptions=["epsilon-relaxed entailment 1e-9", "coefficients concrete"], stubs=["lpsym/standin.py"], outside=["horizons beyond the bound"]),
         dict(name="hand_offs_between_rounds", fn="worker_handoff", cases=hand, replay=replay_handoff, functions=["Parameters.compute_parameters_third_round", "init_meat_and_dairy_and_feed_from_breeding_and_subtract_feed_biofuels_round1",
                                                                                                                  "calculate_human_consumption_for_min_needs"],
